@@ -78,7 +78,7 @@ func (c *Case) Key() string {
 // Describe is a human-readable form for evidence samples.
 func (c *Case) Describe() map[string]any {
 	q := func(d *Dep) string {
-		if d.SrcAlias == "." {
+		if d == nil || d.SrcAlias == "." {
 			return ""
 		}
 		if d.SrcAlias != "" {
